@@ -79,7 +79,7 @@ func measured(line string, f func() string) result {
 		runtime.ReadMemStats(&m1)
 		ch <- result{out, m1.TotalAlloc - m0.TotalAlloc}
 	}()
-	start := time.Now()
+	start, cpu0 := time.Now(), cpuTime()
 	for {
 		select {
 		case r := <-ch:
@@ -89,11 +89,23 @@ func measured(line string, f func() string) result {
 			if heapSmp[0].Value.Uint64() > heapGuard {
 				abort(line, "OOM")
 			}
-			if time.Since(start) > watchdog {
+			// a call that loops burns CPU: the watchdog counts the CPU time of this process (cases run one at a time), so that a
+			// machine under heavy load (a thorough run next to 20 test suites produced one false HANG with a wall-clock watchdog)
+			// does not turn a slow case into HANG; the wall clock only catches a call that blocks without using CPU
+			if cpuTime()-cpu0 > watchdog || time.Since(start) > 40*watchdog {
 				abort(line, "HANG")
 			}
 		}
 	}
+}
+
+// cpuTime is the user+system CPU time consumed by this process so far.
+func cpuTime() time.Duration {
+	var ru syscall.Rusage
+	if err := syscall.Getrusage(syscall.RUSAGE_SELF, &ru); err != nil {
+		return 0
+	}
+	return time.Duration(ru.Utime.Nano() + ru.Stime.Nano())
 }
 
 func abort(line, what string) {
